@@ -169,7 +169,9 @@ def scale_case(case):
     for i in range(n):
         a = odd_agent(i, m)
         for T in ('X',) + (('Y',) if i % 2 else ()) + (('P2',) if i % 3 == 0 else ()) + (('F',) if i % 4 == 1 else ()):
-            c = types[T](a, m)
+            # every tenth agent's components were built before the agent existed (their back-reference is empty): they
+            # are the agent's components all the same
+            c = types[T](None if i % 10 == 2 and T != 'P2' else a, m)
             a.add_component(c)
             comps[id(c)] = (i, T)
         agents.append(a)
